@@ -39,6 +39,16 @@ _PURE_METHODS = {
 }
 
 
+import itertools as _it
+import functools as _ft
+import operator as _op
+_PURE_STDLIB = {
+    "itertools.product": _it.product, "itertools.chain": _it.chain, "itertools.permutations": _it.permutations,
+    "itertools.combinations": _it.combinations, "itertools.repeat": _it.repeat, "itertools.islice": _it.islice,
+    "operator.itemgetter": _op.itemgetter, "operator.attrgetter": _op.attrgetter,
+}
+
+
 class Native(object):
     """a recorder / helper callable injected by a rule into the interpreted environment"""
 
@@ -96,20 +106,46 @@ def _record_type(name, fields):
     return _RECORD_TYPES[key]
 
 
+def _mro(repo, module, cls):
+    """the class and its ural base classes, most derived first (single inheritance is all ural uses)"""
+    out = []
+    seen = set()
+    stack = [(module, cls)]
+    while stack:
+        m, c = stack.pop(0)
+        if id(c) in seen:
+            continue
+        seen.add(id(c))
+        out.append((m, c))
+        for b in c.bases:
+            if isinstance(b, ast.Name):
+                r = repo.resolve(m, b.id)
+                if r is not None and isinstance(r.node, ast.ClassDef):
+                    stack.append((r.module, r.node))
+    return out
+
+
 def instantiate(repo, module, cls, args=(), kwargs=None, depth=0):
     obj = Obj(module, cls)
-    for st in cls.body:
-        if isinstance(st, ast.FunctionDef) and st.name == "__init__":
-            run_function(repo, FuncRef(module, st, "%s.%s.__init__" % (module.name, cls.name)), [obj] + list(args), kwargs, depth + 1)
+    for m, c in _mro(repo, module, cls):
+        for st in c.body:
+            if isinstance(st, ast.FunctionDef) and st.name == "__init__":
+                run_function(repo, FuncRef(m, st, "%s.%s.__init__" % (m.name, c.name)), [obj] + list(args), kwargs, depth + 1)
+                return obj
     return obj
 
 
 def _class_member(repo, obj, name):
-    for st in obj.cls.body:
-        if isinstance(st, ast.FunctionDef) and st.name == name:
-            return Bound(obj, st)
-        if isinstance(st, ast.Assign) and any(isinstance(t, ast.Name) and t.id == name for t in st.targets):
-            return repo.ceval(obj.module, st.value)
+    for m, c in _mro(repo, obj.module, obj.cls):
+        for st in c.body:
+            if isinstance(st, ast.FunctionDef) and st.name == name:
+                if any(isinstance(d, ast.Name) and d.id == "property" for d in st.decorator_list):
+                    return run_function(repo, FuncRef(m, st, "%s.%s.%s" % (m.name, c.name, name)), [obj])
+                b = Bound(obj, st)
+                b.module = m
+                return b
+            if isinstance(st, ast.Assign) and any(isinstance(t, ast.Name) and t.id == name for t in st.targets):
+                return repo.ceval(m, st.value)
     raise Unknown("attribute %s of %s" % (name, obj.cls.name))
 
 
@@ -348,6 +384,17 @@ class _Interp(object):
             self._comp(n, 0, out)
             return out
         if isinstance(n, ast.Attribute):
+            dn = self.repo.dotted(self.module, n) if not (isinstance(n.value, ast.Name) and n.value.id in self.env) else None
+            if dn is not None:
+                # attribute of an imported standard module: only constants are known
+                try:
+                    return self.repo.ceval(self.module, n, self.env)
+                except Unknown:
+                    pass
+                from .srcmodel import _STDLIB_CONSTANTS
+                mod_, _, attr_ = dn.rpartition(".")
+                if (mod_, attr_) in _STDLIB_CONSTANTS:
+                    return _STDLIB_CONSTANTS[(mod_, attr_)]
             try:
                 base = self.expr(n.value)
             except Unknown:
@@ -434,6 +481,24 @@ class _Interp(object):
             if dn in ("os.path.splitext", "posixpath.splitext"):
                 import posixpath
                 return posixpath.splitext(*args)
+            if dn == "re.compile":
+                pat = args[0].pattern if isinstance(args[0], Regex) else args[0]
+                flags = args[1] if len(args) > 1 else kwargs.get("flags", 0)
+                if not isinstance(pat, (str, bytes)):
+                    raise Unknown("re.compile of a non-string")
+                return Regex(pat, int(flags), n, self.module)
+            if dn is not None and dn.startswith("re.") and dn[3:] in ("I", "IGNORECASE", "U", "UNICODE", "M", "MULTILINE", "S", "DOTALL", "X", "VERBOSE", "A", "ASCII") and not args:
+                import re as _re
+                return int(getattr(_re, dn[3:]))
+            if dn == "re.escape":
+                import re as _re
+                return _re.escape(*args)
+            if dn in _PURE_STDLIB:
+                try:
+                    r = _PURE_STDLIB[dn](*args, **kwargs)
+                except Exception as e:
+                    raise Raised(type(e).__name__)
+                return list(r) if dn.startswith("itertools.") else r
             if dn in ("re.match", "re.search", "re.fullmatch", "re.sub", "re.subn", "re.split", "re.findall", "re.finditer") and args:
                 import re as _re
                 pat = args[0]
@@ -517,7 +582,7 @@ class _Interp(object):
             if ref is not None and ref.qualname in ("os.path.splitext", "posixpath.splitext"):
                 import posixpath
                 return posixpath.splitext(*args)
-            if ref is not None and ref.qualname in ("urllib.parse.urlsplit", "urllib.parse.urlunsplit", "urllib.parse.urljoin", "urllib.parse.SplitResult"):
+            if ref is not None and ref.qualname in ("urllib.parse.urlsplit", "urllib.parse.urlunsplit", "urllib.parse.urljoin", "urllib.parse.SplitResult", "urllib.parse.parse_qs", "urllib.parse.parse_qsl"):
                 import urllib.parse
                 try:
                     return getattr(urllib.parse, ref.qualname.rpartition(".")[2])(*args, **kwargs)
@@ -525,6 +590,12 @@ class _Interp(object):
                     raise Raised("ValueError")
                 except Exception as e:
                     raise Unknown("stdlib call raised %s" % e)
+            if ref is not None and ref.qualname in _PURE_STDLIB:
+                try:
+                    r = _PURE_STDLIB[ref.qualname](*args, **kwargs)
+                except Exception as e:
+                    raise Raised(type(e).__name__)
+                return list(r) if ref.qualname.startswith("itertools.") else r
             if ref is not None and ref.qualname in ("html.unescape",):
                 import html
                 return html.unescape(*args)
@@ -612,7 +683,8 @@ def _call_value(self, v, args, kwargs):
     if isinstance(v, Native):
         return v.fn(*args, **kwargs)
     if isinstance(v, Bound):
-        return run_function(self.repo, FuncRef(v.obj.module, v.fn, "%s.%s.%s" % (v.obj.module.name, v.obj.cls.name, v.fn.name)), [v.obj] + list(args), kwargs, self.depth + 1)
+        bm = getattr(v, "module", None) or v.obj.module
+        return run_function(self.repo, FuncRef(bm, v.fn, "%s.%s.%s" % (bm.name, v.obj.cls.name, v.fn.name)), [v.obj] + list(args), kwargs, self.depth + 1)
     raise Unknown("call of a %s value" % type(v).__name__)
 
 
